@@ -65,3 +65,54 @@ def weights(case):
                     bad.append(dict(nodes=name, m=m, n=n, x=[float(t) for t in xs], x0=x0, row=int(k), node=int(v),
                                     got=float(W[k, v]), expected=float(Ef[k, v])))
     return dict(reproduced=bool(bad), failing=bad[:4], statement='row k of fd_weights_all must equal the k-th derivative at x0 of the Lagrange basis')
+
+
+@reg('C16.deriv')
+def c16_deriv(case):
+    from numdifftools.fornberg import fd_derivative
+    n, m = case['n'], case['m']
+    mm = n // 2 + m
+    deg = 2 * mm
+    Nmin = 2 * mm + 2
+    Ns = sorted({Nmin, Nmin + 1, Nmin + 6, 45} | ({case['N']} if case.get('N') and Nmin <= case['N'] <= 200 else set()))
+    rng = np.random.default_rng(7)
+    bad = []
+    for N in Ns:
+        for gname, x in [('uniform', np.linspace(-1.0, 1.0, N)), ('random', np.sort(rng.uniform(-1, 1, N))),
+                         ('decreasing', np.linspace(1.0, -1.0, N))]:
+            for d in sorted({deg, deg - 1, max(n, 1), 0}):
+                if d < 0:
+                    continue
+                c = 0.3
+                fx = (x - c) ** d
+                exact = (math.factorial(d) / math.factorial(d - n)) * (x - c) ** (d - n) if d >= n else np.zeros(N)
+                try:
+                    du = fd_derivative(fx, x, n, m)
+                except Exception as e:
+                    bad.append(dict(N=N, grid=gname, degree=d, raised=repr(e)))
+                    continue
+                if du.shape != (N,):
+                    bad.append(dict(N=N, grid=gname, degree=d, shape=du.shape)); continue
+                # conditioning-scaled tolerance: exact weights of the widest stencil
+                h = np.min(np.abs(np.diff(x)))
+                tol = 1e-6 * (1 + np.max(np.abs(fx))) / h ** n * 4.0 ** mm
+                err = np.max(np.abs(du - exact))
+                if not err <= tol:
+                    k = int(np.argmax(np.abs(du - exact)))
+                    bad.append(dict(N=N, grid=gname, degree=d, index=k, got=float(du[k]), expected=float(exact[k]), tol=tol))
+    return dict(reproduced=bool(bad), failing=bad[:4], statement='fd_derivative exact on polynomials of degree <= 2*(n//2+m) at every grid point')
+
+
+@reg('C16.guards')
+def c16_guards(case):
+    from numdifftools.fornberg import fd_derivative
+    bad = []
+    for args in [(np.arange(3.0), np.arange(3.0), 3, 1), (np.arange(5.0), np.arange(6.0), 1, 1), (np.arange(2.0), np.arange(2.0), 2, 2)]:
+        try:
+            fd_derivative(*args)
+            bad.append(str([len(args[0]), len(args[1]), args[2], args[3]]))
+        except ValueError:
+            pass
+        except Exception as e:
+            bad.append(repr(e))
+    return dict(reproduced=bool(bad), failing=bad)
